@@ -13,11 +13,11 @@ fresh map must not raise.  Ties for the theorem's model: uniqueness of formats p
 state_roundtrip) is checked on the real ISPECS lists; `icore.__call__`'s lookup behaviour is compared
 with the model `exec` on every executed instruction.
 """
-import sys, pickle, importlib
+import sys, pickle, importlib, signal
 from common import *
 import isa
 from amoco.arch import core as acore
-from amoco.cas.expressions import exp
+from amoco.cas.expressions import exp, cst
 from amoco.cas.mapper import mapper
 
 
@@ -57,7 +57,7 @@ def hook_name(i):
         return "?"
 
 
-def check_instruction(ck, I, label, bs, i, fmts, drv_cases):
+def check_instruction(ck, I, label, bs, i, fmts, drv_cases, states=None):
     """well-formedness, rendering, pickle, execution of one decoded instruction"""
     where = {"isa": label, "bytes": bs.hex()}
     hk = hook_name(i)
@@ -128,7 +128,78 @@ def check_instruction(ck, I, label, bs, i, fmts, drv_cases):
         ok = False
         ck.report("C17:exec:%s:%s" % (type(ex).__name__, site(ex)), "%s: applying %s (%s) to a fresh map raises %s: %s" % (label, i.mnemonic, bs.hex(), type(ex).__name__, str(ex)[:80]),
                   "oracle", "contract of semantics function i_%s (premise of Amoco.Frame.Props.exec_total)" % i.mnemonic, case=where)
+    # -- execute on maps that hold concrete register values, as a running history of instructions
+    #    ("applying it to a map": any map, not only an empty one)
+    if states is not None:
+        for kind in ("zeros", "small"):
+            st = states.get(kind)
+            if st is None or st[1] >= 6:
+                st = states[kind] = [state_map(I, kind), 0]
+            st[1] += 1
+            old = signal.signal(signal.SIGALRM, _alarm)
+            signal.alarm(6)
+            try:
+                i(st[0])
+                ck.count("exec.on-%s-state" % kind)
+            except SlowStep:
+                ck.count("exec.on-%s-state.slow" % kind)
+                states[kind] = None
+            except MemoryError:
+                ck.count("exec.on-%s-state.memory" % kind)
+                states[kind] = None
+            except BaseException as ex:
+                ok = False
+                states[kind] = None
+                ck.report("C17:exec:%s:%s" % (type(ex).__name__, site(ex)), "%s: applying %s (%s) to a map holding concrete register values (%s, %d instructions before) raises %s: %s" % (
+                              label, i.mnemonic, bs.hex(), kind, st[1] - 1, type(ex).__name__, str(ex)[:80]),
+                          "oracle", "contract of semantics function i_%s (premise of Amoco.Frame.Props.exec_total)" % i.mnemonic, case=dict(where, state=kind))
+            finally:
+                signal.alarm(0)
+                signal.signal(signal.SIGALRM, old)
     return ok
+
+
+class SlowStep(BaseException):
+    pass
+
+
+def _alarm(signum, frame):
+    raise SlowStep()
+
+
+_REGS = {}
+
+
+def isa_registers(I):
+    """register objects of the ISA's env/cpu modules (plain `reg` instances, also inside lists/tuples/dicts)"""
+    if I.name in _REGS:
+        return _REGS[I.name]
+    from amoco.cas.expressions import reg as _reg
+    out, seen = [], set()
+    mods = [I.cpu] + [v for v in vars(I.cpu).values() if isinstance(v, type(sys)) and v.__name__.startswith("amoco.arch") and v.__name__.endswith("env")]
+    def add(o):
+        if type(o) is _reg and o.size > 0 and o.ref not in seen:
+            seen.add(o.ref); out.append(o)
+    for m in mods:
+        for v in list(vars(m).values()):
+            add(v)
+            if isinstance(v, (list, tuple)):
+                for x in v: add(x)
+            elif isinstance(v, dict):
+                for x in v.values(): add(x)
+    _REGS[I.name] = out
+    return out
+
+
+def state_map(I, kind):
+    m = mapper()
+    for j, r_ in enumerate(isa_registers(I)):
+        v = 0 if kind == "zeros" else ((j * 37 + 11) & 0xFF) & ((1 << r_.size) - 1)
+        try:
+            m[r_] = cst(v, r_.size)
+        except Exception:
+            pass
+    return m
 
 
 def main(tier):
@@ -177,6 +248,9 @@ def main(tier):
                         inputs.append(("exhaustive", w.to_bytes(s.mask.size // 8, "little")[::e]))
                     ck.count("specs-enumerated-exhaustively")
                 else:
+                    # coinciding / boundary field values (the same register in every slot, zero registers ...)
+                    for bs in isa.structured_bytes(s, e, r):
+                        inputs.append(("structured", bs))
                     for _ in range(per):
                         bs = isa.directed_bytes(s, e, r)
                         if pf and r.random() < 0.15:
@@ -193,6 +267,7 @@ def main(tier):
             for _ in range(40 if quick else 2000):
                 inputs.append(("random", bytes(r.getrandbits(8) for _ in range(r.randrange(0, I.maxlen + 5)))))
             hooks_reached = set()
+            states = {}
             for kind, bs in inputs:
                 isa.reset(d)
                 with isa.AttemptTrace() as tr:
@@ -213,7 +288,7 @@ def main(tier):
                               case={"isa": label, "bytes": bs.hex()}, real=type(exn).__name__)
                 elif res == "ok":
                     hooks_reached.add(hook_name(i))
-                    check_instruction(ck, I, label, bs, i, fmts, exec_cases)
+                    check_instruction(ck, I, label, bs, i, fmts, exec_cases, states)
                     if len(ck.cov["samples"]) < 5 and r.random() < 0.002:
                         ck.sample({"isa": label, "bytes": bs.hex(), "mnemonic": i.mnemonic, "hook": hook_name(i)})
             ck.count("hooks-reached", len(hooks_reached))
